@@ -1,8 +1,48 @@
 (* C09 - zones survive write-then-read as text; equivalent zone-file spellings agree.
    Statements only; proofs are in Proofs/ZoneText*.v.  Model: Model/ZoneTextM.v. *)
 From DV Require Import Base.Prelude Model.NameM Model.ZoneTextM.
-From DV Require Import Proofs.ZoneTextBase Proofs.ZoneTextInv Proofs.ZoneTextRespell.
+From DV Require Import Proofs.ZoneTextBase Proofs.ZoneTextInv Proofs.ZoneTextRespell Proofs.ZoneTextLex
+  Proofs.ZoneTextAcc Proofs.ZoneTextRecord Proofs.ZoneTextSweep Proofs.ZoneTextRoundtrip.
+From Coq Require Import Permutation.
 Open Scope Z_scope.
+
+(* WRITE THEN READ.  For every reader configuration c (origin given or taken from $ORIGIN,
+   relativized or absolute, any class), every lossless style st (any combination of sorting,
+   $ORIGIN, $TTL / default TTL, owner de-duplication, omitted class, left justification of the
+   owner and any justification of the other columns, output origin / relativization) and every
+   well-formed zone, printing succeeds and reading the printed text gives back exactly the zone
+   (names in the order the printer wrote them - `printed_order`, a permutation - and rdatasets,
+   records and TTLs unchanged).
+   Well-formedness (nodes_wf) is what zones built through the library's API satisfy: distinct
+   names inside the origin, non-empty nodes and rdatasets, one rdataset per (type, covers), no
+   duplicate records, singleton types hold one record, SOA only at the origin, TTLs and types in
+   range, CNAME not mixed with other data; plus, per name and per record, that its own text form
+   parses back (owner_ok / rdata_ok: the C01 and C05 round trips, RDATA being a parameter here). *)
+Theorem zone_roundtrip : forall (c : cfg) (st : style) (zo : name),
+  lossless st ->
+  0 <= c_class c <= 65535 ->
+  forall nodes nodes' : zone,
+  nodes' = printed_order st nodes ->
+  (c_origin c = Some zo \/ (c_origin c = None /\ st_want_origin st = true)) ->
+  (st_want_origin st = true -> origin_ok zo) ->
+  nodes_wf c st zo [] nodes' ->
+  (c_check c = true -> check_origin c (Some zo) nodes' = Ok tt) ->
+  exists text,
+    zone_text st (mkpz (Some zo) (c_rel c) (c_class c) nodes) = Ok text /\
+    from_text c text = Ok (match nodes' with [] => c_origin c | _ => Some zo end, nodes').
+Proof. exact zone_roundtrip_proof. Qed.
+Print Assumptions zone_roundtrip.
+
+(* the printer's name sort only reorders the names *)
+Theorem printed_order_permutation : forall st nodes, Permutation (printed_order st nodes) nodes.
+Proof. intros st nodes. unfold printed_order. destruct (st_sorted st); [apply zsort_perm|reflexivity]. Qed.
+Print Assumptions printed_order_permutation.
+
+(* the class and type columns the printer writes read back, and are never taken for a TTL or a
+   class, for every 16-bit code *)
+Theorem type_column_roundtrip : forall ty, 0 <= ty <= 65535 -> type_ok ty.
+Proof. exact type_ok_all. Qed.
+Print Assumptions type_column_roundtrip.
 
 (* The decimal text of every TTL in range reads back as that TTL. *)
 Theorem ttl_text_roundtrip : forall n, 0 <= n <= MAX_TTL -> ttl_from_text (dec n) = Ok n.
@@ -83,3 +123,64 @@ Proof. split; reflexivity. Qed.
 Example ex_owner_hyps :
   as_name true [119;119;119] (Some ex_origin) false None = Ok [[119;119;119];[101;120];[]].
 Proof. reflexivity. Qed.
+
+(* ---------- non-vacuity of zone_roundtrip: a relativized zone with three names, read without
+   an origin argument ($ORIGIN is printed), de-duplicated owners, $TTL 300, justified columns ---------- *)
+Definition ns_ : name := [[110; 115]].
+Definition www_ : name := [[119; 119; 119]].
+Definition rt_nodes : zone :=
+  [ ([], [ mkrds tSOA 0 300 [[VName ns_; VName [[104; 109]]; VInt 1; VInt 7200; VInt 900; VInt 1209600; VInt 60]];
+           mkrds tNS 0 300 [[VName ns_]; [VName [[110; 115; 50]; [111]; []]]] ]);
+    (www_, [ mkrds tCNAME 0 60 [[VName ns_]] ]);
+    (ns_, [ mkrds tA 0 300 [[VTok [49; 46; 50; 46; 51; 46; 52]]; [VTok [49; 46; 50; 46; 51; 46; 53]]];
+            mkrds tTXT 0 3600 [[VStrs [[104; 105; 32; 34]; []]]] ]) ].
+Definition rt_cfg := mkcfg None true 1 true.
+Definition rt_style := mkstyle false true (Some 300) true false false false false (-8) 6 0 (-6) None false false.
+
+Ltac solve_rdata toks := exists toks; split; [vm_compute; reflexivity|split; vm_compute; reflexivity].
+
+Example rt_premises :
+  lossless rt_style /\ origin_ok ex_origin /\ nodes_wf rt_cfg rt_style ex_origin [] rt_nodes /\
+  check_origin rt_cfg (Some ex_origin) rt_nodes = Ok tt.
+Proof.
+  split; [|split; [|split]].
+  - unfold lossless, rt_style; cbn.
+    split; [reflexivity|]. split; [reflexivity|]. split; [reflexivity|]. split; [lia|]. split; [reflexivity|].
+    intros d0 Hd0; inversion Hd0; subst; unfold MAX_TTL; lia.
+  - split; [|split]; vm_compute; reflexivity.
+  - unfold rt_nodes. cbn [nodes_wf].
+    repeat split;
+      lazymatch goal with
+      | |- exists _, _ => idtac
+      | |- _ <> _ => vm_compute; intros HH; discriminate HH
+      | |- _ <= _ => vm_compute; intros HH; discriminate HH
+      | |- is_singleton _ = true -> _ =>
+          vm_compute; first [intros HH; discriminate HH | intros _; eexists; reflexivity]
+      | |- soa_ok _ _ _ _ => unfold soa_ok; vm_compute; first [intros _; reflexivity | intros HH; discriminate HH]
+      | |- key_fresh _ _ => unfold key_fresh; repeat (apply Forall_cons; [vm_compute; reflexivity|]); apply Forall_nil
+      | |- rds_fresh _ _ _ => unfold rds_fresh; repeat (apply Forall_cons; [vm_compute; reflexivity|]); apply Forall_nil
+      | |- compat _ _ => vm_compute; first [reflexivity | exact I]
+      | |- True => exact I
+      | |- _ = _ => vm_compute; reflexivity
+      end.
+    + exists [64], ex_origin. repeat split; vm_compute; reflexivity.
+    + solve_rdata [TId [110;115]; TId [104;109]; TId [49]; TId [55;50;48;48]; TId [57;48;48]; TId [49;50;48;57;54;48;48]; TId [54;48]].
+    + solve_rdata [TId [110;115]].
+    + solve_rdata [TId [110;115;50;46;111;46]].
+    + exists [119;119;119], [[119;119;119];[101;120];[]]. repeat split; vm_compute; reflexivity.
+    + solve_rdata [TId [110;115]].
+    + exists [110;115], [[110;115];[101;120];[]]. repeat split; vm_compute; reflexivity.
+    + solve_rdata [TId [49;46;50;46;51;46;52]].
+    + solve_rdata [TId [49;46;50;46;51;46;53]].
+    + solve_rdata [TQ [104;105;32;92;34]; TQ []].
+  - vm_compute. reflexivity.
+Qed.
+
+(* ... and the conclusion, computed: the printed text is read back as the same zone *)
+Example rt_computed :
+  exists text, zone_text rt_style (mkpz (Some ex_origin) true 1 rt_nodes) = Ok text /\
+               from_text rt_cfg text = Ok (Some ex_origin, rt_nodes).
+Proof.
+  exists (match zone_text rt_style (mkpz (Some ex_origin) true 1 rt_nodes) with Ok t => t | _ => [] end).
+  split; vm_compute; reflexivity.
+Qed.
